@@ -185,15 +185,21 @@ def check_case(case):
             res.hits["zero-length other axis"] += 1
     res.states |= {hash((N, str(dt), i)) for i in range(nv)}
     # complex input refused
-    for cdt in (np.complex64, np.complex128):
-        res.transitions += 1
-        try:
-            f(np.zeros(max(N, 1), cdt))
-            res.violation("real_to_complex|complex accepted", f"complex input {np.dtype(cdt)} accepted", case, None)
-        except ValueError:
-            res.hits["complex refused"] += 1
-        except Exception as ex:
-            res.violation("real_to_complex|complex wrong exception", f"{type(ex).__name__}: {ex}", case, None)
+    for cdt in (np.complex64, np.complex128, np.clongdouble):
+        # every length incl. 0 along the converted axis, other axes of length 0, every axis spelling
+        for shp, ax in (((N,), 0), ((N,), -1), ((N, 2), 0), ((2, N), 1), ((2, N), -1), ((N, 0), 0), ((0, N), 1), ((0,), 0), ((0, 3), 0),
+                        ((3, 0), -1)):
+            res.transitions += 1
+            try:
+                f(np.zeros(shp, cdt), axis=ax)
+                res.violation("real_to_complex|complex accepted", f"complex input {np.dtype(cdt)} of shape {shp} (axis {ax}) accepted", case,
+                              {"shape": list(shp), "axis": ax, "dtype": str(np.dtype(cdt))})
+            except ValueError:
+                res.hits["complex refused"] += 1
+                if 0 in shp:
+                    res.hits["empty complex input refused"] += 1
+            except Exception as ex:
+                res.violation("real_to_complex|complex wrong exception", f"{type(ex).__name__}: {ex}", case, None)
     # tone at w -> w - N/4, and linearity on explicit float combinations
     if N >= 4 and N % 4 == 0 and dt.kind == "f":
         n = np.arange(N)
@@ -271,7 +277,7 @@ def check_case(case):          # noqa: F811 - dispatch on the case kind
 def main(argv=None):
     return report.run_check(
         PID, gen_cases=gen_cases, check_case=check_case, describe=describe,
-        required_hits=["N = 0", "N = 1", "non-contiguous input", "zero-length other axis", "concurrent same-shape calls explored", "negative axis", "middle axis of rank 3", "complex refused", "tone mapped"],
+        required_hits=["N = 0", "N = 1", "non-contiguous input", "zero-length other axis", "concurrent same-shape calls explored", "negative axis", "middle axis of rank 3", "complex refused", "empty complex input refused", "tone mapped"],
         assumptions=["budget 8 eps max(N,4) max|x| with eps = single precision for float16/float32 input (scipy.fft computes half-precision input in single precision) and double otherwise"],
         argv=argv)
 
